@@ -171,7 +171,10 @@ type errorExtra struct {
 // When debug is false, stack traces and file paths are omitted to avoid leaking
 // implementation details to clients.
 func buildErrorExtra(err error, debug bool) string {
-	errType := fmt.Sprintf("%T", err)
+	// Anything that is not a typed framework error surfaces as RuntimeError,
+	// the documented cross-language default; a Go type name such as
+	// *errors.errorString means nothing to a non-Go client.
+	errType := "RuntimeError"
 
 	// Prefer the wire-stable class name for typed errors.
 	switch e := err.(type) {
